@@ -49,7 +49,17 @@ def _possible(state, event):
     return True
 
 
-def _fire(h, p, cm, host, event, commack, system):
+_OTHERS = [(1, 1), (2, 13), (2, 14), (5, 13), (64, 14), (1, 3), (6, 11)]     # not S1F13 / S1F14, but look-alikes (SxF13, SxF14)
+
+
+def _other(k, system):
+    s_, f_ = pick(_OTHERS, k)
+    if (s_, f_) == (1, 1):
+        return rig.msg(F.SecsS01F01(), system, True)
+    return rig.Msg(s_, f_, f_ % 2 == 1, system, b"")
+
+
+def _fire(h, p, cm, host, event, commack, system, other=0):
     if event == EV_ENABLE:
         cm.enable()
     elif event == EV_DISABLE:
@@ -63,7 +73,7 @@ def _fire(h, p, cm, host, event, commack, system):
     elif event == EV_S1F14:
         h._on_message_received({"message": rig.msg(F.SecsS01F14({"COMMACK": commack, "MDLN": []}), system, False)})
     elif event == EV_OTHER:
-        h._on_message_received({"message": rig.msg(F.SecsS01F01(), system, True)})
+        h._on_message_received({"message": _other(other, system)})
     elif event == EV_T_CRA:
         cm._on_wait_cra_timeout()
     else:
@@ -130,10 +140,11 @@ def _mark_fired(ft, event):
                 t.fired = True             # the expiring timer itself is consumed by its expiry
 
 
-def comm_step(host: bool, state: int, event: int, commack: int, system: int, delay: int, user_commack: int) -> bool:
+def comm_step(host: bool, state: int, event: int, commack: int, system: int, delay: int, user_commack: int, other: int) -> bool:
     """
     pre: 0 <= state <= 4 and 0 <= event <= 8
     pre: 0 <= commack < 256 and 0 <= system < 2**32 and 1 <= delay <= 100000 and 0 <= user_commack <= 1
+    pre: 0 <= other < 7
     post: _
     """
     if not _possible(state, event):
@@ -143,7 +154,7 @@ def comm_step(host: bool, state: int, event: int, commack: int, system: int, del
     _enter_timers(cm, state)
     _mark_fired(ft, event)
     try:
-        _fire(h, p, cm, host, event, commack, system)
+        _fire(h, p, cm, host, event, commack, system, other)
     except WrongSourceStateError:
         return False
     now = cm.current
@@ -159,7 +170,9 @@ def comm_step(host: bool, state: int, event: int, commack: int, system: int, del
     if event in (EV_SELECTED, EV_T_DELAY):
         return fin(len(s1f13_out) == 1)                       # entering WAIT_CRA puts exactly one S1F13 on the wire
     if event == EV_OTHER and state == COMM:
-        return fin(len(calls) == 1)
+        return fin(len(calls) == (1 if other == 0 else 0))
+    if event == EV_OTHER and s1f14_out:
+        return False                                          # only an S1F13 may be answered with S1F14
     if event == EV_S1F13 and (state == COMM or now == _CS[COMM]):
         # answered exactly once with the request's system bytes; established only with COMMACK 0
         return fin(len(s1f14_out) == 1 and s1f14_out[0][2] == system
@@ -207,7 +220,7 @@ OBLIGATIONS = [
                     "CommunicationStateMachine transitions and timer callbacks", "SecsHandler._handle_stream_function"],
          bounds="host and equipment role; every communication state; events enable, disable, link selected, link lost (protocol "
                 "'disconnected' event), inbound S1F13, S1F14 with any COMMACK byte and any system bytes (matching the outstanding S1F13 "
-                "or not), other primary, WAIT_CRA timer expiry, delay timer expiry; establish-communications delay 1..100000 symbolic",
+                "or not), 7 other messages incl. SxF13/SxF14 look-alikes, WAIT_CRA timer expiry, delay timer expiry; establish-communications delay 1..100000 symbolic",
          outside="wall-clock behaviour of real threading.Timer; races between the timer thread and the dispatcher",
          findings=[dict(id="C07-s1f14-any", pred="event == 5 and state == 2 and commack != 0"),
                    dict(id="C07-s1f14-stale", pred="event == 5 and state == 2 and commack == 0 and system != 4242"),
